@@ -386,6 +386,19 @@ def _intval(x):
     return int(x) if x == int(x) else -999
 
 
+def _reorder(d, k):
+    """The same action dictionary with another insertion order (a dictionary is keyed by agent, its order carries no meaning):
+    rotated by the step number, reversed on every other step."""
+    keys = list(d)
+    if not keys:
+        return d
+    r = k % len(keys)
+    keys = keys[r:] + keys[:r]
+    if k % 2:
+        keys.reverse()
+    return {a: d[a] for a in keys}
+
+
 def run_data(cfg, ops, seed=0):
     """cfg: NW, A, L, leave, endk, kind, dtype, copy, continuous, mode; ops: ("reset",) | ("step", actions[NW][A]).
     Returns a trace for VecData_Trace."""
@@ -410,6 +423,7 @@ def run_data(cfg, ops, seed=0):
             env = PettingZooAutoResetParallelWrapper(mk[0]())
         else:
             env = mk[0]()
+        nstep = 0
         for op in ops:
             e = {"op": op[0], "exc": "", "shape_ok": True, "prev_ok": True, "out": []}
             if op[0] == "step":
@@ -422,7 +436,8 @@ def run_data(cfg, ops, seed=0):
                     else:
                         acts = {ag: (np.array([[float(op[1][i][a])] for i in range(NW)], dtype=np.float32) if cfg.get("continuous")
                                      else np.array([op[1][i][a] for i in range(NW)])) for a, ag in enumerate(agents)}
-                        obs, rew, term, trunc, info = env.step(acts)
+                        nstep += 1
+                        obs, rew, term, trunc, info = env.step(_reorder(acts, nstep))
                     obsd = {ag: obs[ag] for ag in agents}
                     e["shape_ok"] = all(_shape_ok(kind, dtype, obsd[ag], NW) for ag in agents)
                     out = []
@@ -454,7 +469,8 @@ def run_data(cfg, ops, seed=0):
                         live = list(env.agents) if mode == "wrapper" else list(env.agents)
                         acts = {ag: (np.array([float(op[1][0][a])], dtype=np.float32) if cfg.get("continuous") else op[1][0][a])
                                 for a, ag in enumerate(agents) if ag in live}
-                        obs, rew, term, trunc, info = env.step(acts)
+                        nstep += 1
+                        obs, rew, term, trunc, info = env.step(_reorder(acts, nstep))
                         if mode == "ref" and all(term[ag] or trunc[ag] for ag in term):
                             obs, _ = env.reset()          # what "environment i stepped alone, restarted when done" shows
                     rowl = []
